@@ -93,6 +93,103 @@ pub fn adaptor_case(ctx: &mut Ctx, fl: Flavour, offers: &[usize], dgrams: &[Vec<
     }
 }
 
+#[derive(Clone, Debug)]
+pub enum AOp { Rd(usize), Fl, Wr(Vec<u8>) }
+fn aop_tok(o: &AOp) -> String { match o { AOp::Rd(n) => n.to_string(), AOp::Fl => "f".into(), AOp::Wr(b) => format!("w{}", hex(b)) } }
+fn aop_parse(t: &str) -> Option<AOp> {
+    if t == "f" { Some(AOp::Fl) } else if let Some(h) = t.strip_prefix('w') { Some(AOp::Wr(unhex(h))) } else { t.parse().ok().map(AOp::Rd) }
+}
+
+/// adaptor level, both halves: reads with chosen slice sizes interleaved with flushes and writes on the same adaptor.
+/// The hold-back buffer belongs to the receive side; nothing done on the write side may disturb it.
+pub fn ops_case(ctx: &mut Ctx, fl: Flavour, ops: &[AOp], dgrams: &[Vec<u8>]) {
+    let op = format!("udp.ops {} {} {}", fl.tok(), if ops.is_empty() { "-".to_string() } else { ops.iter().map(aop_tok).collect::<Vec<_>>().join(",") }, join_hex(dgrams));
+    let ops2 = ops.to_vec();
+    let dg = dgrams.to_vec();
+    let res: Option<(Vec<Vec<u8>>, Vec<Vec<u8>>)> = match fl {
+        Flavour::Blocking => guard(std::panic::AssertUnwindSafe(move || {
+            use std::io::Write;
+            let (a, peer) = pair();
+            a.set_read_timeout(Some(Duration::from_millis(150))).unwrap();
+            peer.set_read_timeout(Some(Duration::from_millis(30))).unwrap();
+            let mut s = insim::net::blocking_impl::UdpStream::from(a);
+            let (mut out, mut sent, mut served, mut avail) = (vec![], 0usize, 0usize, 0usize);
+            for o in ops2 {
+                match o {
+                    AOp::Rd(n) => {
+                        if served == avail {
+                            if sent == dg.len() { break; }
+                            peer.send(&dg[sent]).unwrap();
+                            avail += dg[sent].len().min(1020);
+                            sent += 1;
+                        }
+                        let mut buf = vec![0u8; n];
+                        match s.read(&mut buf) {
+                            Ok(k) => { served += k; out.push(buf[..k].to_vec()); },
+                            Err(_) => { out.push(b"BLOCKED".to_vec()); break; },
+                        }
+                    },
+                    AOp::Fl => { let _ = s.flush(); },
+                    AOp::Wr(b) => { let _ = s.write(&b); },
+                }
+            }
+            let mut replies = vec![];
+            let mut buf = [0u8; 2048];
+            while let Ok(n) = peer.recv(&mut buf) { replies.push(buf[..n].to_vec()); }
+            (out, replies)
+        })),
+        Flavour::Tokio => guard(std::panic::AssertUnwindSafe(move || {
+            let rt = tokio::runtime::Builder::new_current_thread().enable_all().build().unwrap();
+            rt.block_on(async move {
+                use tokio::io::{AsyncReadExt, AsyncWriteExt};
+                let (a, peer) = pair();
+                a.set_nonblocking(true).unwrap();
+                peer.set_read_timeout(Some(Duration::from_millis(30))).unwrap();
+                let mut s = insim::net::tokio_impl::UdpStream::from(tokio::net::UdpSocket::from_std(a).unwrap());
+                let (mut out, mut sent, mut served, mut avail) = (vec![], 0usize, 0usize, 0usize);
+                for o in ops2 {
+                    match o {
+                        AOp::Rd(n) => {
+                            if served == avail {
+                                if sent == dg.len() { break; }
+                                peer.send(&dg[sent]).unwrap();
+                                avail += dg[sent].len().min(1020);
+                                sent += 1;
+                            }
+                            let mut buf = vec![0u8; n];
+                            match tokio::time::timeout(Duration::from_millis(150), AsyncReadExt::read(&mut s, &mut buf)).await {
+                                Ok(Ok(k)) => { served += k; out.push(buf[..k].to_vec()); },
+                                _ => { out.push(b"BLOCKED".to_vec()); break; },
+                            }
+                        },
+                        AOp::Fl => { let _ = AsyncWriteExt::flush(&mut s).await; },
+                        AOp::Wr(b) => { let _ = AsyncWriteExt::write(&mut s, &b).await; },
+                    }
+                }
+                let mut replies = vec![];
+                let mut buf = [0u8; 2048];
+                while let Ok(n) = peer.recv(&mut buf) { replies.push(buf[..n].to_vec()); }
+                (out, replies)
+            })
+        })),
+    };
+    let line = match &res { None => "panic".to_string(), Some((c, r)) => format!("{} sent={}", join_hex(c), join_hex(r)) };
+    ctx.case(&op, &line);
+    if let Some((c, r)) = &res {
+        let got: Vec<u8> = c.concat();
+        let want: Vec<u8> = dgrams.concat();
+        let all_small = dgrams.iter().all(|d| d.len() <= 1020);
+        if all_small && !want.starts_with(&got) {
+            ctx.violation(&format!("c08/adaptor/{}/lost-bytes", fl.tok()), "the adaptor dropped, duplicated or reordered datagram bytes", &op, &hex(&want), &line);
+        }
+        // every write performed left as exactly one datagram holding exactly its bytes
+        let written: Vec<Vec<u8>> = ops.iter().filter_map(|o| if let AOp::Wr(b) = o { Some(b.clone()) } else { None }).collect();
+        if !(r.len() <= written.len() && written[..r.len()] == r[..]) {
+            ctx.violation(&format!("c08/write/{}/datagrams", fl.tok()), "a written packet did not leave as exactly one datagram holding exactly its frame", &op, &join_hex(&written), &join_hex(r));
+        }
+    }
+}
+
 /// connection level: packets over a real loopback socket pair, lock-step, arbitrarily long sessions
 pub fn session_case(ctx: &mut Ctx, fl: Flavour, compressed: bool, dgrams: &[Vec<Vec<u8>>], label: &str) {
     let frames: Vec<Vec<u8>> = dgrams.iter().flatten().cloned().collect();
@@ -222,6 +319,11 @@ pub fn run(ctx: &mut Ctx) {
                     let d: Vec<Vec<u8>> = if *dg == "-" { vec![] } else { dg.split('+').map(unhex).collect() };
                     adaptor_case(ctx, fl(f), &o, &d);
                 },
+                ["udp.ops", f, ops, dg] => {
+                    let o: Vec<AOp> = if *ops == "-" { vec![] } else { ops.split(',').filter_map(aop_parse).collect() };
+                    let d: Vec<Vec<u8>> = if *dg == "-" { vec![] } else { dg.split('+').map(unhex).collect() };
+                    ops_case(ctx, fl(f), &o, &d);
+                },
                 ["udp.session", f, m, dg] => {
                     let d: Vec<Vec<Vec<u8>>> = dg.split('/').map(|x| x.split('+').map(unhex).collect()).collect();
                     session_case(ctx, fl(f), *m == "c", &d, "replay");
@@ -256,6 +358,35 @@ pub fn run(ctx: &mut Ctx) {
             adaptor_case(ctx, fl, &offers, &dg);
         }
     }
+    // both halves of one adaptor: flushes and writes between the reads of a datagram served in pieces
+    for fl in [Flavour::Blocking, Flavour::Tokio] {
+        for dlen in [4usize, 8, 13] {
+            for o1 in 1..=5usize {
+                for mid in 0..4u8 {
+                    let d: Vec<u8> = (0..dlen as u8).map(|i| i.wrapping_mul(11).wrapping_add(3)).collect();
+                    let d2: Vec<u8> = (0..6u8).map(|i| 100 + i).collect();
+                    let mut ops = vec![];
+                    for i in 0..12 {
+                        ops.push(AOp::Rd(if i % 2 == 0 { o1 } else { 64 }));
+                        match mid { 1 => ops.push(AOp::Fl), 2 => ops.push(AOp::Wr(vec![4, 3, 0, i as u8])), 3 => { ops.push(AOp::Wr(vec![i as u8; 5])); ops.push(AOp::Fl); }, _ => {} }
+                    }
+                    ops_case(ctx, fl, &ops, &[d, d2]);
+                }
+            }
+        }
+        for _ in 0..(if quick { 40 } else { 2000 }) {
+            let k = 1 + ctx.rng.below(4) as usize;
+            let dg: Vec<Vec<u8>> = (0..k).map(|_| { let n = *ctx.rng.pick(&[4usize, 8, 12, 132, 600, 1020]); (0..n).map(|_| ctx.rng.byte()).collect() }).collect();
+            let style = ctx.rng.below(3);
+            let ops: Vec<AOp> = (0..300).map(|_| match ctx.rng.below(6) {
+                0 => AOp::Fl,
+                1 => { let n = 1 + ctx.rng.below(12) as usize; AOp::Wr((0..n).map(|_| ctx.rng.byte()).collect()) },
+                _ => AOp::Rd(match style { 0 => 1 + ctx.rng.below(8) as usize, 1 => 1 + ctx.rng.below(300) as usize, _ => 1 + ctx.rng.below(2000) as usize }),
+            }).collect();
+            ops_case(ctx, fl, &ops, &dg);
+        }
+    }
+    ctx.exhaustive_domains.push("adaptor with flushes/writes between reads: datagram lengths {4,8,13} x first offer 1..5 x {nothing, flush, write, write+flush} between every two reads, both adaptors".into());
     ctx.exhaustive_domains.push("adaptor: datagram lengths {1,4,5,8,13} x first offer 1..6 x second offer {1,3,64}, both adaptors".into());
     // connection level
     for compressed in [true, false] {
@@ -285,6 +416,22 @@ pub fn run(ctx: &mut Ctx) {
                 let n = if quick { 120 } else { 3000 };
                 let dg: Vec<Vec<Vec<u8>>> = (0..n).map(|i| { let f = big[i % big.len()].clone(); if i % 3 == 0 && f.len() * 2 <= 1020 { vec![f.clone(), f] } else { vec![f] } }).collect();
                 session_case(ctx, fl, compressed, &dg, "long-session");
+            }
+            // long session whose datagrams carry several packets with keep-alives in between (the connection answers a
+            // keep-alive while the rest of that datagram may still be held back by the adaptor)
+            {
+                let n = if quick { 150 } else { 3000 };
+                let mut dg: Vec<Vec<Vec<u8>>> = vec![];
+                for _ in 0..n {
+                    let mut d: Vec<Vec<u8>> = vec![];
+                    let mut len = 0;
+                    for _ in 0..(2 + ctx.rng.below(5)) {
+                        let f = if ctx.rng.chance(2, 5) { ka.clone() } else { ctx.rng.pick(&any).clone() };
+                        if len + f.len() <= 1020 { len += f.len(); d.push(f); }
+                    }
+                    if !d.is_empty() { dg.push(d); }
+                }
+                session_case(ctx, fl, compressed, &dg, "long-mixed-keepalives");
             }
             // writes
             for _ in 0..(if quick { 8 } else { 200 }) {
